@@ -273,6 +273,7 @@ CONS = [
     ("do_var_concurrent_label", "do {L1}, concurrent_{n1} = 1, {d1}, 2\n{S}\n{L1} continue", "fix"),
     ("do_shared", "do {L1} {n1} = 1, {d1}\ndo {L1} {n2} = 1, {d2}\n{S}\n{L1} continue", "fix"),
     ("do_label_enddo", "do {L1} {n1} = 1, {d1}\n{S}\n{L1} end do", "fix"),
+    ("do_shared_action", "do {L1} {n1} = 1, {d1}\ndo {L1} {n2} = 1, {d2}\n{S}\n{L1} {n3} = {n1} + {n2}", "fix x"),
     ("select_case", "select case ({n1})\ncase ({d1})\n{S}\ncase ({d2}:{d3})\n{S}\ncase default\n{S}\nend select", "fix one"),
     ("select_case_str", "select case ({n1})\ncase ('{s1}')\n{S}\ncase default\nend select", "fix"),
     ("select_named", "{n9}: select case ({n1})\ncase ({d1}) {n9}\n{S}\nend select {n9}", ""),
@@ -318,6 +319,8 @@ UNITS = [
     # ---- added after a coverage audit of the rule classes' match()/tostr() (tools/covaudit.py) and the
     # round-3 seeded changes; flag x = extended (quick tier: fewer rotations, no depth-2 nesting)
     ("block_data_anon", "block data\n{SPEC}\nend block data", "fix x"),
+    ("function_typed_result", "integer function {n8}({n7}) result({n6})\n{SPEC}\n{EXEC}\n{n6} = 1\nend function {n8}", "one x"),
+    ("function_result_decl", "function {n8}({n7}) result({n6})\nreal :: {n6}\n{SPEC}\n{EXEC}\n{n6} = 1.0\nend function {n8}", "one x"),
     ("sub_then_anon", "subroutine {n7}\nend subroutine {n7}\n{SPEC}\n{EXEC}\nend", "fix x"),
     ("anon_then_sub", "{SPEC}\n{EXEC}\nend\nsubroutine {n7}\nend subroutine {n7}", "fix x"),
     ("function_prefix", "pure elemental real function {n8}({n7})\n{SPEC}\n{EXEC}\n{n8} = 1\nend function {n8}", "x"),
